@@ -382,7 +382,11 @@ impl Collection<SimVM> for SimCollection {
         let start = RESUME_COUNT.load(Ordering::SeqCst);
         MUT_PARKED[mid].store(true, Ordering::SeqCst);
         simrt::block_until("block_for_gc: a GC has finished", move || {
-            RESUME_COUNT.load(Ordering::SeqCst) > start && !STOP_REQUESTED.load(Ordering::SeqCst)
+            // (a fork round trip in progress keeps the thread here: the VM must not allocate
+            // between prepare_to_fork and after_fork, and this thread is inside an allocation)
+            RESUME_COUNT.load(Ordering::SeqCst) > start
+                && !STOP_REQUESTED.load(Ordering::SeqCst)
+                && !crate::ops2::FORK_HOLD.load(Ordering::SeqCst)
         });
         MUT_PARKED[mid].store(false, Ordering::SeqCst);
         world::on_unblocked(mid);
